@@ -276,6 +276,21 @@ def verify_function(qual):
     if con is None:
         out.error = f"no contract for {qual}"
         return out
+    # first exploration: collect the write sets of all loop bodies (also of inlined callees); nothing is proved from it
+    from . import core as _core
+    try:
+        _core.LOOP_MODE[0] = "collect"
+        for k_ in [k_ for k_ in _core.LOOP_WRITES if k_[0] == fi.qual]:
+            del _core.LOOP_WRITES[k_]
+        pend0, n0 = [[]], 0
+        while pend0 and n0 <= MAX_PATHS:
+            n0 += 1
+            r0 = run_path(fi, con, pend0.pop())
+            pend0.extend(r0["pending"])
+    except Exception:
+        pass
+    finally:
+        _core.LOOP_MODE[0] = "use"
     pending = [[]]
     seen = {}
     entry_cover_done = False
@@ -296,6 +311,8 @@ def verify_function(qual):
             for n in ex.notes:
                 if n not in out.notes:
                     out.notes.append(n)
+            if getattr(ex, "loop_write_escape", None):
+                raise RuntimeError(f"loop write set changed between the two explorations: {ex.loop_write_escape}")
             if r["error"]:
                 # an unsupported construct on an infeasible path does not matter
                 chk = z3.Solver()
@@ -369,6 +386,21 @@ def _solve(args):
         s_.set("timeout", timeout_ms)
         s_.from_string(text)
         return ctx_, s_
+
+    def isolated(k, rl):
+        ctx_ = z3.Context()
+        s0 = z3.Solver(ctx=ctx_)
+        s0.from_string(text)
+        s_ = z3.Solver(ctx=ctx_)
+        s_.set("auto_config", False)
+        s_.set("smt.mbqi", False)
+        s_.set("rlimit", rl)
+        s_.set("timeout", timeout_ms)
+        for a in s0.assertions():
+            if z3.is_implies(a) and z3.is_const(a.arg(0)) and a.arg(0).decl().name().startswith("__g") and a.arg(0).decl().name() != k:
+                continue
+            s_.add(a)
+        return ctx_, s_
     try:
         ctx, s = fresh_solver()
     except Exception as e:
@@ -400,6 +432,26 @@ def _solve(args):
                 out.append((name, k, "sat", "", _model_text(s), dt))
             else:
                 reason = s.reason_unknown()
+                if k is not None and len(slots) > 1 and "incomplete" not in reason:
+                    # grouping is an optimisation only: the ground terms of the other goals of the group feed E-matching too.
+                    # A goal that runs out of resources inside its group is decided on its own before it is classified.
+                    try:
+                        c2, s2 = isolated(k, rlimits[n_k] if rlimits else rlimit)
+                        r2 = s2.check(z3.Bool(k, c2))
+                        if r2 == z3.unsat:
+                            rl2 = 0
+                            st2 = s2.statistics()
+                            for k_ in st2.keys():
+                                if k_ == "rlimit count":
+                                    rl2 = st2.get_key_value(k_)
+                            out.append((name, k, "unsat", f"rlimit={rl2}", None, time.time() - t0))
+                            continue
+                        if r2 == z3.sat:
+                            out.append((name, k, "sat", "", _model_text(s2), time.time() - t0))
+                            continue
+                        s, reason = s2, s2.reason_unknown()
+                    except Exception:
+                        pass
                 model = None
                 if "incomplete" in reason:
                     try:
